@@ -103,8 +103,8 @@ def _quotes_balanced(t):
 
 
 HDR_FN = re.compile(r'^fn (.+?)\((.*)\) -> (.+) \{$')
-HDR_CONST = re.compile(r'^(const|static(?: mut)?) (.+?): (.+) = \{$')
-HDR_CONST1 = re.compile(r'^(const|static(?: mut)?) (.+?): (.+) = (const .+);$')
+HDR_CONST = re.compile(r'^(const|static(?: mut)?) (.+): (.+?) = \{$')
+HDR_CONST1 = re.compile(r'^(const|static(?: mut)?) (.+): (.+?) = (const .+);$')
 
 
 def _find_args_split(line):
